@@ -32,7 +32,7 @@ package core
 
 //@ func pushToTimeoutQueue
 //@   flags trusted
-//@   modifies msg.Timeout
+//@   modifies time.Time.wall, time.Time.ext, time.Time.loc
 
 //@ func Frag.slowLogCheck
 //@   flags trusted pure
@@ -46,3 +46,71 @@ package core
 //@   flags trusted pure
 //@ func Msg.RspBodyString
 //@   flags trusted pure
+
+// ---- backend write path (C10): pending-write queue -> awaiting-reply queue -> one vectored write ----
+// Both queues of a connection link their fragments through the same Frag.prev/next fields, so each step also
+// states that the other queue of the connection is untouched (qsame) and that the two stay disjoint (qdisj).
+
+//@ define qdisj(a, b) = forall i int, j int :: (0 <= i && i < a.count && 0 <= j && j < b.count) ==> fq(a, i) != fq(b, j)
+//@ define qsame(l) = l.count == old(l.count) && l.head == old(l.head) && l.tail == old(l.tail) && (forall k int :: 0 <= k && k < l.count ==> qnth_local(old(heap(Frag.prev)), heap(Frag.prev), l.head, k) && fq(l, k) == old(fq(l, k)))
+//@ define oq(c) = c.outFragQueue
+//@ define iq(c) = c.inFragQueue
+
+//@ func conn.dequeueOutFrag
+//@   props C10
+//@   modifies oq(c).head, oq(c).tail, oq(c).count, old(oq(c).head).next, old(oq(c).head).prev, old(oq(c).head.prev).next
+//@   requires oq(c) != nil && fwf(oq(c))
+//@   ensures[empty] old(oq(c).count) == 0 ==> oq(c).count == 0 && oq(c).head == nil
+//@   ensures[count] old(oq(c).count) > 0 ==> oq(c).count == old(oq(c).count) - 1
+//@   ensures[shift] forall i int :: 0 <= i && i < oq(c).count ==> qnth_local(old(heap(Frag.prev)), heap(Frag.prev), oq(c).head, i)
+//@       && qnth_shift(old(heap(Frag.prev)), old(oq(c).head), i) && fq(oq(c), i) == old(fq(oq(c), i + 1))
+//@   ensures[wf] fwf(oq(c))
+//@   ensures[detached] old(oq(c).count) > 0 ==> old(oq(c).head).prev == nil && old(oq(c).head).next == nil
+//@   ensures[gone] old(oq(c).count) > 0 ==> fnotin(oq(c), old(oq(c).head))
+//@   ensures[other.same] (iq(c) != nil && iq(c) != oq(c) && old(fwf(iq(c))) && old(qdisj(iq(c), oq(c)))) ==> qsame(iq(c))
+//@   ensures[other.wf] (iq(c) != nil && iq(c) != oq(c) && old(fwf(iq(c))) && old(qdisj(iq(c), oq(c)))) ==> fwf(iq(c))
+//@   ensures[other.disj] (iq(c) != nil && iq(c) != oq(c) && old(fwf(iq(c))) && old(qdisj(iq(c), oq(c)))) ==> qdisj(iq(c), oq(c))
+//@   ensures[other.notin] (iq(c) != nil && iq(c) != oq(c) && old(fwf(iq(c))) && old(qdisj(iq(c), oq(c)))) ==> fnotin(iq(c), old(oq(c).head))
+
+//@ func conn.enqueueInFrag
+//@   props C10 C16
+//@   modifies iq(c).head, iq(c).tail, iq(c).count, frag.next, frag.prev, old(iq(c).tail).prev, time.Time.wall, time.Time.ext, time.Time.loc
+//@   requires iq(c) != nil && fwf(iq(c)) && frag != nil && fnotin(iq(c), frag) && c.loop != nil && c.loop.engine != nil && c.loop.engine.opts != nil
+//@   ensures[count] iq(c).count == old(iq(c).count) + 1
+//@   ensures[keep] forall i int :: 0 <= i && i < old(iq(c).count) ==> fq(iq(c), i) == old(fq(iq(c), i))
+//@   ensures[last] qnth_unfold(heap(Frag.prev), iq(c).head, old(iq(c).count)) && fq(iq(c), old(iq(c).count)) == frag
+//@   ensures[wf] fwf(iq(c))
+//@   ensures[other.same] (oq(c) != nil && iq(c) != oq(c) && old(fwf(oq(c))) && old(qdisj(iq(c), oq(c))) && old(fnotin(oq(c), frag))) ==> qsame(oq(c))
+//@   ensures[other.wf] (oq(c) != nil && iq(c) != oq(c) && old(fwf(oq(c))) && old(qdisj(iq(c), oq(c))) && old(fnotin(oq(c), frag))) ==> fwf(oq(c))
+//@   ensures[other.disj] (oq(c) != nil && iq(c) != oq(c) && old(fwf(oq(c))) && old(qdisj(iq(c), oq(c))) && old(fnotin(oq(c), frag))) ==> qdisj(iq(c), oq(c))
+
+//@ define hwsok(c) = c.opened && oq(c) != nil
+//@ define moved(c) = old(oq(c).count) - oq(c).count
+
+//@ func conn.handleWriteSignal
+//@   props C10
+//@   requires c.loop != nil && c.loop.engine != nil && c.loop.engine.opts != nil
+//@   requires hwsok(c) ==> (fwf(oq(c)) && iq(c) != nil && iq(c) != oq(c) && fwf(iq(c)) && qdisj(iq(c), oq(c)))
+//@   ensures[same] c.opened ==> old(c.opened) && oq(c) == old(oq(c)) && iq(c) == old(iq(c))
+//@   ensures[drained@C10] hwsok(c) ==> oq(c).count == 0 && iq(c).count == old(iq(c).count) + old(oq(c).count) && fwf(oq(c)) && fwf(iq(c))
+//@   ensures[order.kept@C10] hwsok(c) ==> (forall k int :: 0 <= k && k < old(iq(c).count) ==> fq(iq(c), k) == old(fq(iq(c), k)))
+//@   ensures[order.moved@C10] hwsok(c) ==> (forall k int :: 0 <= k && k < old(oq(c).count) ==> fq(iq(c), old(iq(c).count) + k) == old(fq(oq(c), k)))
+//@   ensures[written@C10] hwsok(c) ==> c.wcount == old(c.wcount) + old(oq(c).count) && (forall k int :: 0 <= k && k < old(oq(c).count) ==> c.wlog[old(c.wcount) + k] == old(fqm(oq(c), k).Req))
+//@   loop 0
+//@     modifies oq(c).head, oq(c).tail, oq(c).count, iq(c).head, iq(c).tail, iq(c).count, Frag.next, Frag.prev, time.Time.wall, time.Time.ext, time.Time.loc, capmem(bs)
+//@     invariant c.opened && oq(c) != nil && iq(c) != nil && iq(c) != oq(c) && c.loop != nil && c.loop.engine != nil && c.loop.engine.opts != nil
+//@     invariant fwf(oq(c)) && fwf(iq(c)) && qdisj(iq(c), oq(c))
+//@     invariant 0 <= oq(c).count && oq(c).count <= old(oq(c).count) && iq(c).count == old(iq(c).count) + moved(c)
+//@     invariant forall k int, j int :: (0 <= k && k < oq(c).count && j == k + moved(c)) ==> fq(oq(c), k) == old(fq(oq(c), j))
+//@     invariant forall k int :: 0 <= k && k < old(iq(c).count) ==> fq(iq(c), k) == old(fq(iq(c), k))
+//@     invariant forall k int :: 0 <= k && k < moved(c) ==> fq(iq(c), old(iq(c).count) + k) == old(fq(oq(c), k))
+//@     invariant len(bs) == moved(c) && cap(bs) == old(oq(c).count) && fresh(bs) && sameback(bs)
+//@     invariant forall k int :: 0 <= k && k < len(bs) ==> bs[k] == old(fqm(oq(c), k).Req)
+//@   loop 1
+//@     modifies c.opened, c.buffer, c.localAddr, c.remoteAddr, c.pollAttachment, c.initStep, c.initStatus, c.isSlave, c.connType
+//@     modifies c.inMsgQueue, c.inFragQueue, c.outFragQueue, c.wcount, c.wlog, elastic.RingBuffer.rb, ring.Buffer.r, ring.Buffer.w, ring.Buffer.isEmpty, capmem(bs)
+//@     invariant c.loop != nil && fresh(bs) && 0 <= len(bs) && len(bs) <= old(oq(c).count)
+//@     invariant c.opened ==> (oq(c) == old(oq(c)) && iq(c) == old(iq(c)) && c.wcount == old(c.wcount) + old(oq(c).count) - len(bs))
+//@     invariant bs.base == pre(bs.base) && pre(bs.off) <= bs.off && bs.off + len(bs) == pre(bs.off) + pre(len(bs)) && pre(len(bs)) == old(oq(c).count)
+//@     invariant c.opened ==> (forall i int :: 0 <= i && i < old(oq(c).count) - len(bs) ==> c.wlog[old(c.wcount) + i] == old(fqm(oq(c), i).Req))
+//@     invariant forall i int :: (old(oq(c).count) - len(bs) <= i && i < old(oq(c).count)) ==> bs[i - (old(oq(c).count) - len(bs))] == old(fqm(oq(c), i).Req)
